@@ -1,10 +1,12 @@
 import Driver.C10
 import Driver.ST
 import Driver.C14
+import Driver.C13
 
 def main (args : List String) : IO UInt32 := do
   match args with
   | "C10" :: rest => DriverC10.main rest; return 0
   | "ST" :: rest => DriverST.main rest; return 0
   | "C14" :: rest => DriverC14.main rest; return 0
+  | "C13" :: rest => DriverC13.main rest; return 0
   | _ => IO.eprintln "usage: gvdriver <Cxx> [mode] < history"; return 2
